@@ -7,6 +7,7 @@ package ast
 import (
 	"fmt"
 	"sort"
+	"unicode"
 
 	auto "github.com/moorara/algo/automata"
 	"github.com/moorara/algo/list"
@@ -15,14 +16,15 @@ import (
 )
 
 // End marker is a special character not used anywhere in the alphabet for regular expressions.
-// This special unique character is taken from a Private Use Area (PUA) in Unicode.
+// It lies just beyond the last Unicode code point, so no character of a regular expression can be equal to it
+// (a character from a Private Use Area, such as U+EEEE, can be written in a regular expression: /a\xEEEEb/).
 //
 // By concatenating a unique right end-marker µ to a regular expression r,
 // we give the accepting state for r a transition on µ, making it an important state of the NFA for (r)µ.
 // This is useful for directly constructing a DFA for a regular expression.
 //
 // For more details, see Compilers: Principles, Techniques, and Tools (2nd Edition).
-const endMarker rune = 0xEEEE
+const endMarker rune = unicode.MaxRune + 1
 
 // AST is the abstract syntax tree for a regular expression.
 type AST struct {
